@@ -732,7 +732,15 @@ def encode(env, m, o, top=True):
             for f2 in desc.fields:
                 if f2.group() == g and f2.type != 'BOOL':
                     ocands.append(f2)
-        if (cands or ocands) and (top or rnd.random() < 0.5):
+        # a repeated string / bytes / message field with elements on the wire: one more occurrence with the wrong wire type
+        # (counted by the scan, rejected by the parse after the earlier elements have been stored)
+        rcands = sorted(set(fid for fid, _ in recs if fid > 0 and desc.by_id[fid].label == 'REP'
+                            and desc.by_id[fid].type in ('STRING', 'BYTES', 'MESSAGE')))
+        if rcands and (top or rnd.random() < 0.5) and rnd.random() < 0.4:
+            o.bad_done = True
+            fid = rnd.choice(rcands)
+            recs2.append(rnd.choice([key(fid, 0) + [1], key(fid, 5) + [1, 0, 0, 0]]))
+        elif (cands or ocands) and (top or rnd.random() < 0.5):
             o.bad_done = True
             if ocands and (not cands or rnd.random() < 0.6):
                 f2 = rnd.choice(ocands)
